@@ -717,7 +717,7 @@ pub fn run_c18(tier: Tier) -> i32 {
         alpha: alpha_c18,
         init_mon: Value::Null,
         amounts: tier.pick(vec![7 * dd + 3, 150 * dd], vec![7 * dd + 3, 40 * dd, 150 * dd]),
-        secs: tier.pick(vec![1, 15, 899, 900, 3600, 691_200], vec![1, 15, 899, 900, 3600, 691_200]),
+        secs: tier.pick(vec![0, 1, 15, 899, 900, 3600, 691_200], vec![0, 1, 15, 899, 900, 3600, 691_200]),
     };
     run.explore("vAMM TWAP", vparams(&m), &m, &[vec![]], &Limits::new(tier.pick(5, 6)));
     // a long history: trades in 120 consecutive 10-second blocks, then every sequence to the bound
